@@ -7,6 +7,7 @@ from .c01 import sym_bloom, hv
 from .c12 import FIXED
 
 PROPERTY = "C06"
+CROSS_CHECK = True      # thorough: dumped assertion queries are re-decided by z3 4.8.12 and cvc5 1.0
 LEVEL = "translation_validation"
 TECHNIQUE = "differential symbolic execution: library export/add/check vs an SMT-term reference reader and writer of the documented layout; equivalence decided by z3 for all states and keys within the bounds"
 STUBS = ["array/bytes/Struct/BytesIO shadows (the reference side uses none of them: it works on byte offsets of the exported blob)", "cuckoo: see C03"]
